@@ -84,7 +84,10 @@ class Scheduler:
 class SimLock:
     """Replacement for engine._lock: a blocked acquirer hands the baton to the owner."""
 
-    def __init__(self, sched: Scheduler, names: dict[int, str], handoff: list[bool] | None = None):
+    def __init__(self, sched: Scheduler, names: dict[int, str], handoff: list[bool] | None = None,
+                 timeouts: list[bool] | None = None):
+        self.timeouts = list(timeouts or [])   # per contended acquire WITH a timeout: does the timeout elapse first?
+        self.timed_out = 0
         self.sched = sched
         self.names = names
         self.owner: str | None = None
@@ -95,10 +98,21 @@ class SimLock:
 
     def acquire(self, blocking=True, timeout=-1):
         me = self.names.get(threading.get_ident(), "main")
+        first = True
         while self.owner is not None and self.owner != me:
             self.contended += 1
             if me == "main":
                 raise HarnessError("lock held outside the scheduled section")
+            if not blocking:
+                return False
+            if first and timeout is not None and timeout >= 0:
+                # how long the owner keeps the lock against the waiter's timeout is wall-clock: in the simulation it is
+                # a decision of the plan (a slow hardware write makes a tick outlast any timeout)
+                if (self.timeouts.pop(0) if self.timeouts else False):
+                    self.timed_out += 1
+                    self.waiters.discard(me)
+                    return False
+            first = False
             self.waiters.add(me)
             self.sched.yield_to_other(me)
         self.waiters.discard(me)
@@ -106,7 +120,9 @@ class SimLock:
         return True
 
     def release(self):
-        me = self.owner
+        if self.owner is None:
+            raise RuntimeError("release unlocked lock")      # as threading.Lock
+        me = self.owner                                      # as threading.Lock: any thread may release it
         self.owner = None
         # a thread blocked on the lock is woken by the release: whether it wins the lock before the releasing thread
         # goes on is a scheduling decision of the plan (real locks are not fair, both outcomes happen)
@@ -186,7 +202,7 @@ class SimT(Simulator):
             # pre-empt the tick exactly at (or a few lines around) the entry of one of its phases
             switches = dict(switches, T_phase=[rng.choice(PHASES[:7]), rng.choice([-2, -1, 0, 0, 1, 2])])
         return {"cfg": {"wellformed": True, "runlog_every": 1000}, "method": method, "prefix": prefix, "request": req,
-                "switch_fractions": switches, "handoff": handoff, "ops": []}
+                "switch_fractions": switches, "handoff": handoff, "timeouts": [rng.random() < 0.5 for _ in range(3)], "ops": []}
 
     def shrink(self, plan: dict) -> Iterator[dict]:
         m = plan["method"]
@@ -290,6 +306,8 @@ class SimT(Simulator):
         res.probe("baton_switches", out["switches"])
         res.probe("lock_contended", out["contended"])
         res.probe("lock_handoffs_to_waiter", out["handoffs"])
+        if out.get("timed_out"):
+            res.fault("lock_acquire_timed_out", out["timed_out"])
         rec.log("switch_points", sp, n_t, n_r, out["switches"])
         rec.log("got", stable_hash(got), "RT", stable_hash(serial["RT"]), "TR", stable_hash(serial["TR"]))
         kind = plan["request"][0] + (":" + str(plan["request"][1]) if plan["request"][0] in ("edit", "user") else "")
@@ -331,7 +349,7 @@ class SimT(Simulator):
     def _interleaved(self, w: EngineWorld, plan, sp, res, first="T") -> dict:
         sched = Scheduler(sp)
         names: dict[int, str] = {}
-        lock = SimLock(sched, names, plan.get("handoff"))
+        lock = SimLock(sched, names, plan.get("handoff"), plan.get("timeouts"))
         w.engine._lock = lock
         root = os.path.join(repo_root(), "openpectus") + os.sep
         files = tuple(root + f for f in TRACE_FILES)
@@ -384,6 +402,7 @@ class SimT(Simulator):
         out["switches"] = sched.switches
         out["contended"] = lock.contended
         out["handoffs"] = lock.handoffs_done
+        out["timed_out"] = lock.timed_out
         out["count"] = dict(sched.count)
         out["phase_index"] = dict(sched.phase_index)
         return out
